@@ -347,6 +347,11 @@ def cargo_build(crate_dir, toolchain=None, timeout=1800, check_only=False, targe
     r.wall = time.time() - t0
     r.ok = p.returncode == 0
     r.raw = p.stderr.decode("utf-8", "replace")[-4000:]
+    # a compiler that was killed (out of memory, signal) or crashed has not judged every case: its partial list of
+    # diagnostics must never be read as "the remaining cases compile"
+    for marker in ("(signal:", "SIGKILL", "SIGSEGV", "SIGABRT", "internal compiler error", "rustc interrupted", "memory allocation of"):
+        if not r.ok and marker in r.raw:
+            raise ToolError(f"rustc terminated abnormally in {crate_dir} ({marker}): {r.raw[-600:]}")
     for line in p.stdout.decode("utf-8", "replace").splitlines():
         if not line.startswith("{"):
             continue
@@ -597,6 +602,8 @@ def verdict_crate(name, cases, prelude="", toolchain=None, features=("full",), c
         if not hit:
             unattributed.append(dg)
     r.unattributed = unattributed
+    if not r.ok and not any(d["level"] == "error" for d in r.diags):
+        raise ToolError(f"probe crate {name} failed to build without a single error diagnostic: {r.raw[-800:]}")
     return per, r
 
 
